@@ -2,6 +2,7 @@
 from __future__ import annotations
 
 import asyncio
+import functools
 import itertools
 import json
 import random
@@ -29,6 +30,16 @@ ASSUMPTIONS = ["one model event = one harness action followed by running the loo
 EXPLANATION = ("Lean theorems C12_* over the subscription/listener automaton HapVerif.Subs (wanted set changes only by subscribe/unsubscribe; after every connect the registered set covers the wanted set unless the polling fallback was entered, "
                "and every listener is told; each delivery calls every listener of the snapshot exactly once, bursts in order; raising/unregistering/registering listeners do not affect the others or the connection; junk bodies deliver nothing) "
                "+ differential tie on the accessory's per-session registrations and every listener's call log")
+
+
+class CallableListener:
+    """a listener that is an object with __call__ (no __name__)"""
+
+    def __init__(self, inner):
+        self.inner = inner
+
+    def __call__(self, ev):
+        return self.inner(ev)
 
 
 def parse_chs(t):
@@ -94,8 +105,16 @@ async def scenario(loop, events, seed):
                     k = int(kind[4:])
                     if k not in logs:
                         make_listener(k, "n")
-            cb_ids[cb] = lid
-            removers[lid] = p.dispatcher_connect(cb)
+            # callers register all sorts of callables: plain functions, functools.partial objects, callable instances
+            shape = lid % 3
+            if shape == 1:
+                reg = functools.partial(lambda inner, ev: inner(ev), cb)
+            elif shape == 2:
+                reg = CallableListener(cb)
+            else:
+                reg = cb
+            cb_ids[reg] = lid
+            removers[lid] = p.dispatcher_connect(reg)
 
         async def call(coro):
             t = asyncio.ensure_future(coro)
